@@ -485,8 +485,9 @@ func genC13(maxN int) func(t *rapid.T) c13Case {
 		}
 		cs.Reverse = rapid.Bool().Draw(t, "reverse")
 		cs.Limit = rapid.SampledFrom([]int{0, 0, 1, 1, 2, 3, -1, -2}).Draw(t, "limit")
-		if cs.N > 0 && rapid.IntRange(0, 3).Draw(t, "useroots") == 0 {
-			k := rapid.IntRange(1, 2).Draw(t, "nroots")
+		if cs.N > 0 && rapid.IntRange(0, 2).Draw(t, "useroots") == 0 {
+			// one to four roots, in any order, duplicates and roots that depend on one another included
+			k := rapid.IntRange(1, 4).Draw(t, "nroots")
 			for i := 0; i < k; i++ {
 				cs.Roots = append(cs.Roots, rapid.IntRange(0, cs.N-1).Draw(t, "root"))
 			}
